@@ -580,6 +580,78 @@ def check_backlink_values(run: Run, ctx, m, mod: str, rule: str) -> None:
                     root = alt
                 run.check(root != tgt, rule, fi, n, "a node's back-link points at another node", f"{show(tgt)[:60]}._old_ast is (read from) the node itself: the chain back to the user's call is cut", "", show(val), key="back-link points at the node itself")
     run.floor(rule, n_st, 2, "_old_ast back-link stores in the package")
+    _check_backlink_chain(run, ctx, m, mod, rule)
+
+
+def _check_backlink_chain(run: Run, ctx, m, mod: str, rule: str) -> None:
+    """A back-link written for a node that replaces a node which may itself be a replacement (a call whose defaults
+    were filled in, a call an earlier callback handed back) is that node's own link when it has one - so every link
+    leads to the user's call in one step, which is all the patch-back follows.  Links that point at the replaced
+    replacement make chains; they are accepted only when the patch-back walks `_old_ast` in a loop."""
+    def makes_link(t, depth=0) -> bool:
+        """may the node `t` carry a back-link?"""
+        if not isinstance(t, tuple) or not t:
+            return False
+        if t[0] == "phi":
+            return any(makes_link(a, depth) for a in t[1])
+        if t[0] == "upd":
+            return any(f_ == "_old_ast" for f_, _v in t[2]) or makes_link(t[1], depth)
+        if t[0] == "index" and isinstance(t[1], tuple) and t[1] and t[1][0] == "app":
+            callee = t[1][1]
+            if callee[0] == "global" and callee[1].endswith("_fill_in_default_arguments"):
+                return True
+            if callee[0] in ("attr", "elem", "param", "phi", "index", "app"):
+                return True  # what a callback (a callable that is data) handed back: linked by the caller afterwards
+        return False
+
+    def param_may_link(fi, pname, depth=0) -> bool:
+        if depth > 3:
+            return True
+        sites = call_sites_of(m, fi)
+        for caller, call, skip in sites:
+            ps = fi.pos_params[skip:]
+            if pname not in ps:
+                continue
+            k_ = ps.index(pname)
+            actual = call.args[k_] if k_ < len(call.args) else next((kw.value for kw in call.keywords if kw.arg == pname), None)
+            if actual is None:
+                continue
+            cfa = ctx.analysis(caller)
+            if not cfa.cfg.has_node(actual):
+                continue
+            for alt in unphi_terms(strip_sites(cfa.term_of(actual))):
+                if makes_link(alt):
+                    return True
+                if alt[0] == "attr" and alt[2] == "node" and caller.name == "process_method_call":
+                    return True  # the candidate record's node: the call after default filling
+                if alt[0] == "param" and alt[1] in caller.params and param_may_link(caller, alt[1], depth + 1):
+                    return True
+        return False
+
+    raw_chain = []
+    for fi in list(m.funcs.values()):
+        if fi.module.name != mod:
+            continue
+        fa = None
+        for n in own_nodes(fi):
+            if not (isinstance(n, ast.Assign) and len(n.targets) == 1 and isinstance(n.targets[0], ast.Attribute) and n.targets[0].attr == "_old_ast"):
+                continue
+            fa = fa or ctx.analysis(fi)
+            if not fa.cfg.has_node(n):
+                continue
+            alts = list(unphi_terms(strip_sites(fa.term_of(n.value))))
+            if any(a[0] == "attr" and a[2] == "_old_ast" for a in alts):
+                continue  # takes over the replaced node's link
+            for a in alts:
+                if makes_link(a) or (a[0] == "param" and a[1] in fi.params and param_may_link(fi, a[1])):
+                    raw_chain.append((fi, n, a))
+    if not raw_chain:
+        run.ok(rule, None, "every back-link written for a replacement of a replacement is the replaced node's own link")
+        return
+    fx_fn = m.find_func("fixup_ast_from_modifications", in_module=mod)
+    walks = any(isinstance(w, ast.While) and "_old_ast" in ast.unparse(w) for g in m.funcs.values() if g is fx_fn or (g.parent_func is not None and g.parent_func is fx_fn) or g.qual.startswith(fx_fn.qual + ".") for w in ast.walk(g.node))
+    for fi, n, a in raw_chain:
+        run.check(walks, rule, fi, n, "chains of back-links are walked to their end by the patch-back", f"the back-link points at the replaced node {show(a)[:50]}, which may itself be a replacement (defaults filled in, or handed back by an earlier callback), and the patch-back follows a fixed number of links: with defaults filled in and two rewriting callbacks the rewrite is patched into a copy that is not part of the user's lambda, and the emitted query keeps the un-rewritten call", 'getattr(replaced, "_old_ast", replaced)', key="back-link chains longer than the patch-back follows")
 
 
 def check_patch_back(run: Run, ctx, m, mod: str, rule: str) -> None:
